@@ -57,6 +57,14 @@ fn local_cell_program(rng: &mut Rng) -> String {
     let e1 = g.expr(&ty, 4);
     let jty = g.data_ty(1);
     let junk = g.expr(&jty, 4);
+    if g.rng.chance(1, 3) {
+        // a coroutine (child thread) stores a fresh value into a cell owned by its parent, keeps
+        // allocating (its own heap may be collected) and finishes; the parent reads the cell
+        return format!(
+            "{}let io = import! std.io.prim\nlet rf = import! std.reference.prim\nlet th = import! std.thread.prim\nio.flat_map (\\c -> io.flat_map (\\t -> io.flat_map (\\u -> io.flat_map (\\j -> io.flat_map (\\x -> io.wrap {{ x = x, j = j }}) (rf.load c)) (io.wrap ({}))) (th.resume t)) (th.spawn (io.flat_map (\\u -> io.flat_map (\\w -> io.wrap ()) (io.flat_map (\\k -> rf.(<-) c ({})) (io.wrap ({})))) (rf.(<-) c ({}))))) (rf.ref ({}))\n",
+            gen::PREAMBLE, junk, e1, junk, e1, e0
+        );
+    }
     if g.rng.chance(1, 2) {
         format!(
             "{}let r = import! std.st.reference.prim\n(let c = r.ref ({}) in (let u = r.(<-) c ({}) in (let j = {} in (let x = r.load c in {{ x = x, j = j }}))))\n",
@@ -394,7 +402,7 @@ fn execute(w: &Value, phase: &str) -> Result<Exec, Violation> {
         // extern (primitive) modules are allocated in the heap of the thread that imports them
         // first: import all of them up front so that they belong to the baseline
         let src = format!(
-            "{}let _ = import! std.io.prim\nlet _ = import! std.st.reference.prim\nlet _ = import! std.lazy.prim\n0\n",
+            "{}let _ = import! std.io.prim\nlet _ = import! std.st.reference.prim\nlet _ = import! std.reference.prim\nlet _ = import! std.thread.prim\nlet _ = import! std.lazy.prim\n0\n",
             gen::PREAMBLE
         );
         if let Err(e) = t.run_expr::<OpaqueValue<RootedThread, Hole>>(&format!("warm{}", i), &src) {
@@ -440,6 +448,7 @@ fn execute(w: &Value, phase: &str) -> Result<Exec, Violation> {
         let t_idx = if threads[t_idx].is_some() { t_idx } else { 0 };
         let thread = threads[t_idx].clone().unwrap();
         run::set_context(format!("{} op {} `{}`", phase, i, kind));
+        let children_before = thread.verif_root_counts().1;
         let entry = match kind {
             "eval" => {
                 let src = op["prog"].as_str().unwrap_or("0");
@@ -589,6 +598,15 @@ fn execute(w: &Value, phase: &str) -> Result<Exec, Violation> {
             }
             _ => "nop".to_string(),
         };
+        if kind != "tempthread" {
+            // coroutines spawned by the program itself (std.thread.prim.spawn): every handle on
+            // them is gone at the end of the run, they count as dropped children too
+            let spawned = thread.verif_root_counts().1.saturating_sub(children_before);
+            if spawned > 0 {
+                run::count("coroutines_spawned_by_program", spawned as u64);
+                dropped_children[t_idx] += spawned as u64;
+            }
+        }
         drop(thread);
         if std::env::var("SIM_DEBUG").is_ok() {
             eprintln!("op {} {} => {}", i, kind, clip(&entry));
@@ -703,7 +721,7 @@ fn check_heap(vm: &RootedThread, at: &str, module_cell_written: bool) -> Result<
     run::count("heap_walks", 1);
     run::count("objects_walked", walk.objects);
     if let Some(&(from, owner, _)) = walk.freed_reached.first() {
-        let what = if from == global && owner != global && module_cell_written {
+        let what = if from == global && owner == vm.verif_heaps().0 && module_cell_written {
             "module-level cell: an object of the global heap points to a freed object of a thread heap after a write to a module-level reference/lazy"
         } else {
             "a freed object is reachable"
@@ -715,7 +733,8 @@ fn check_heap(vm: &RootedThread, at: &str, module_cell_written: bool) -> Result<
     }
     let bad = heap::ownership_violations(&walk);
     if let Some(&(from, to, n)) = bad.first() {
-        let what = if from == global && module_cell_written {
+        let creator = vm.verif_heaps().0;
+        let what = if from == global && to == creator && module_cell_written {
             "module-level cell: the global heap points into a thread heap after a write to a module-level reference/lazy"
         } else {
             "a heap points into a heap that is not one of its ancestors"
